@@ -18,7 +18,7 @@ RULE = ('cases: programs (4..25 calls) in both roles after initiate_connection, 
         'without priority weight/dependency/exclusive, END_STREAM; header lists sized by construction - measured on a '
         'shadow hpack.Encoder - to land within +-6 bytes of k x MAX_FRAME_SIZE), send_data (pad None/0..255), '
         'end_stream, push_stream and the response on the promised stream, prioritize, ping, reset_stream, increment_flow_control_window, update_settings, '
-        'advertise_alternative_service, close_connection; non-trivial = a call that produced >= 2 frames, used '
+        'advertise_alternative_service, close_connection; the peer acknowledging our SETTINGS (a raised local MAX_FRAME_SIZE must not leak into what we send); trailers sized to a frame edge; non-trivial = a call that produced >= 2 frames, used '
         'priority or padding, or whose block is within 6 bytes of a frame-size multiple; distinct by trace')
 ASSUMPTIONS = ['the shadow encoder used to size header lists is hpack.Encoder (trusted base) fed the same lists']
 TIERS = {'quick': {'cases': 4000, 'size': 300},
@@ -89,6 +89,7 @@ def run_case(data):
     promised = []        # server: promised streams still reserved (local)
     closed = False
     nontrivial = False
+    unacked = []         # our SETTINGS frames the peer has not acknowledged yet
 
     def expect_frames(o, want, what):
         """want: list of dicts with type, sid, flags(mask must equal), fields."""
@@ -180,7 +181,7 @@ def run_case(data):
             break
         op = ch.weighted([(6, 'headers'), (5, 'data'), (2, 'end'), (2, 'push'), (2, 'prioritize'), (2, 'ping'),
                           (2, 'rst'), (2, 'wu'), (2, 'settings'), (2, 'altsvc'), (1, 'goaway'), (2, 'trailers'),
-                          (2, 'peer-mfs'), (2, 'answer-push'), (1, 'read-part-then-clear')])
+                          (2, 'peer-mfs'), (2, 'answer-push'), (1, 'read-part-then-clear'), (2, 'peer-ack')])
         if op == 'read-part-then-clear':
             # the application reads some of the queued frames (whole frames), drops the rest, and carries on:
             # what it reads afterwards is still a sequence of whole frames
@@ -203,6 +204,28 @@ def run_case(data):
                 r.violate('C02:partial-read-not-the-first-frame', repr(o.frames))
                 break
             r.labels.add('partial-read-and-clear')
+        elif op == 'peer-ack':
+            # the peer acknowledges our oldest outstanding SETTINGS frame: our own limits (MAX_FRAME_SIZE among
+            # them) bind the peer, not us - whatever we send afterwards still respects the peer's values
+            if not unacked:
+                continue
+            acked = unacked.pop(0)
+            o = s.feed(wire.settings(ack=True))
+            r.step('recv SETTINGS ACK for', acked, o.brief())
+            if not o.ok:
+                r.violate('C02:harness:settings-ack-rejected', o.brief())
+                break
+            for f in o.frames:
+                if f.problems or f.type != wire.WINDOW_UPDATE:
+                    r.violate('C02:unexpected-frame-after-ack', repr(f))
+            sizes = [u[wire.S_HEADER_TABLE_SIZE] for u in [acked] + unacked if wire.S_HEADER_TABLE_SIZE in u]
+            if sizes and s.m.enc.header_table_size != min(sizes):
+                # the simulated peer's encoder follows and announces it in its next block; it already shrinks
+                # to the smallest size we have sent (always allowed), because the library applies a pending
+                # HEADER_TABLE_SIZE at the first acknowledgement it sees (known finding K02)
+                s.m.enc.header_table_size = min(sizes)
+            if acked.get(wire.S_MAX_FRAME_SIZE, 16384) > mfs and (can_send or promised):
+                r.labels.add('local-max-frame-size-above-peers-acked-with-streams')
         elif op == 'peer-mfs':
             # the peer announces a new MAX_FRAME_SIZE: every later frame on every stream, including
             # streams that exist already (open or reserved), must respect it
@@ -309,10 +332,15 @@ def run_case(data):
                 continue
             sid = can_send.pop(ch.int(0, len(can_send) - 1))
             hdrs = [(b'x-trailer', b't' * ch.int(0, 30))]
+            if ch.chance(80) and mfs <= 40000:
+                hdrs = sized_headers(ch, shadow, hdrs, mfs + ch.int(-6, 6))
             o = s.call('send_headers', sid, hdrs, end_stream=True)
-            r.step('trailers', sid, o.brief())
+            r.step('trailers', sid, 'filler', len(hdrs[-1][1]), o.brief(), [(f.name, f.length) for f in o.frames])
             if not o.ok:
                 r.violate('C02:valid-trailers-refused:%s' % o.exc_name, '')
+                if o.out:
+                    r.violate('C02:refused-call-emitted:send_headers:%s' % o.exc_name,
+                              repr([(f.name, f.length) for f in o.frames]))
                 break
             header_call('trailers', o, sid, hdrs, True, None)
         elif op == 'data':
@@ -445,8 +473,8 @@ def run_case(data):
             new = {}
             for _ in range(ch.int(1, 3)):
                 k = ch.pick([1, 3, 4, 5, 6, 8, 2, 0x7f])
-                new[k] = {1: ch.pick([0, 4096, 100]), 3: ch.int(1, 200), 4: ch.pick([65535, 100000]),
-                          5: ch.pick([16384, 2**24 - 1]), 6: ch.pick([100, 2**16]), 8: ch.int(0, 1), 2: ch.int(0, 1),
+                new[k] = {1: ch.pick([0, 4096, 100]), 3: ch.int(30, 200), 4: ch.pick([65535, 100000]),
+                          5: ch.pick([16384, 2**24 - 1, 20000]), 6: ch.pick([1000, 2**16]), 8: ch.int(0, 1), 2: ch.int(0, 1),
                           0x7f: ch.u32()}[k]
             o = s.call('update_settings', dict(new))
             r.step('update_settings', new, o.brief())
@@ -456,6 +484,7 @@ def run_case(data):
             if expect_frames(o, [{'t': wire.SETTINGS, 'sid': 0, 'fl': 0}], 'update_settings'):
                 if dict(o.frames[0].f['settings']) != new or len(o.frames[0].f['settings']) != len(new):
                     r.violate('C02:wrong-field:update_settings:settings', repr(o.frames[0]))
+            unacked.append(dict(new))
         elif op == 'altsvc':
             if client:
                 continue
